@@ -21,6 +21,13 @@ resized / emptied again, so that series state is reached through histories too.
            del item / attribute / object, (re-)typing by item and by attribute, new columns, aliasing, rename, resize,
            row deletion, sorted flag.  Every text / payload is judged against the object graph dumped right after it
            was produced, and consecutive texts must differ when the documents do.
+  twice  : the SAME file / bytes / JSON text read two or three times in one process (io.readpickle of one path, also by
+           a relative path; pickle.load / pickle.loads; from_json), the first result used and modified (cells, new /
+           re-typed / aliased columns, rename, resize, row deletion, selections, merges) before and after the second
+           read, the second result used against a control table built by an identical second run of the history; also
+           the edited table written to the same path before the second read.  Every result is judged in Coq against
+           the table that was written, must be a family of its own, own its columns, and share no column / row-id
+           object or cell storage with an earlier result; what is done to one result must not show in another.
 """
 import json
 import math
@@ -522,6 +529,39 @@ def own_obs(A):
     return out
 
 
+def shared_state(a, b):
+    """two tables read from the same file / bytes / text are separate object graphs: -> what they share, or None"""
+    if a is b:
+        return 'are one object'
+    if a._cols is b._cols:
+        return 'share their column dict'
+    if a._rowid is b._rowid:
+        return 'share their row-id object'
+    for nb, cb in b._cols.items():
+        for na, ca in a._cols.items():
+            if ca is cb:
+                return 'share the column object %s' % nb
+            if ca._rowid is cb._rowid:
+                return 'share the row-id object of column %s / %s' % (na, nb)
+            sa, sb = ca._seq, cb._seq
+            if sa is sb or (isinstance(sa, np.ndarray) and isinstance(sb, np.ndarray) and sa.size and np.shares_memory(sa, sb)):
+                return 'share the cell storage of column %s / %s' % (na, nb)
+    return None
+
+
+def not_owned(x):
+    """names of the columns of x that do not point back to x"""
+    return [n for n, c in x._cols.items() if c._datamatrix is not x]
+
+
+def nofam(lit):
+    import re
+    return re.sub(r'x_fam := [^;]*;', '', lit, 1)
+
+
+TWICE_SRC = ['file', 'loads', 'json', 'file', 'load', 'file-rewrite']
+
+
 class C17:
     id = 'C17'
     props_file = 'theories/Props/C17.v'
@@ -564,7 +604,19 @@ class C17:
             'from_json / pickle.loads / io.readpickle of it must give that table, and two consecutive texts must '
             'differ when the documents do. A case is non-trivial when the table has rows and columns '
             '(pickle: and at least one follow-up operation succeeded; json text: the texts differ; reser: an edit '
-            'changed the object graph). Distinct by (history, seed, table, series, post-operations, mode, twins, '
+            'changed the object graph). (twice) one case per history: the table is written ONCE (io.writepickle, pickle.dump, '
+            'pickle.dumps protocols 0 / 2 / 4 / 5, to_json) and read two or three times in the same process '
+            '(io.readpickle of the same path -- the later reads by a relative path in 30 % --, pickle.load, pickle.loads of '
+            'the same bytes object, from_json of the same text); 0-3 follow-up operations (55 % in-place edits: cell writes, '
+            'new / re-typed / aliased columns, rename, resize, row / column deletion; else selections, merges, ...) run on '
+            'the original and on the first result BEFORE the second read and 0-2 after it, 0-2 on the second result and '
+            'on its control (the table an identical second run of the history builds; for the file-rewrite variant -- the '
+            'edited table written to the same path before the second read -- the snapshot of what was written); every '
+            'result and every changed pair is dumped and judged in Coq (same table, invariant incl. column ownership, fresh '
+            'family, families pairwise distinct); on the Python side the results must share no column object, row-id '
+            'object, column dict or cell storage, each must own its columns after every later read, and the dump of one '
+            'result must not change when another result is read or edited. '
+            'Distinct by (history, seed, table, series, post-operations, mode, twins, '
             'follow-ups / selections, edits).')
     trusted_base = [
         'Coq 8.16.1 kernel (coqc; vm_compute for evaluating cases; no native_compute)',
@@ -832,6 +884,246 @@ class C17:
                      'rows%d' % min(len(dm), 9)] + self._tags(dm, inp) + ['follow-' + o['op'] for o in follow]
                     + ['before-' + kd for kd in inp.get('before') or []] + ['after-' + kd for kd in inp.get('after') or []]
                     + (['orig-malformed'] if orig_problems else []),
+        }
+
+    def run_twice(self, inp):
+        """The same file / the same bytes / the same JSON text read TWICE (optionally three times) in one process, the
+        first result being used and modified before and after the second read:
+          src = file          io.writepickle once, io.readpickle(path) each time (the second time by a relative path
+                              when inp['relpath']); the file is not touched in between;
+                file-rewrite  as file, but the table AS EDITED in the meantime is written to the same path before the
+                              second read: that read must give the new content;
+                load / loads  pickle.load from the same file / pickle.loads of the same bytes object;
+                json          convert.from_json of the same text.
+        Group A = (original, first result): `nbefore` follow-up operations on both before the second read, `nafter`
+        after it.  Group B = (control, second result): the control is the table an identical second run of the case's
+        history builds (for file-rewrite: the snapshot of the edited original); `nsecond` follow-up operations on both.
+        Every result must be the table that was written (Coq: xpickle_case / xjson_case against the dumped object graph,
+        which includes which columns point back to their table), a family of its own, and share no column object,
+        row-id object or cell storage with an earlier result; what is done to one result must not show in the other."""
+        from datamatrix import io, convert as cnv
+        r, t, dm, post = self.setup(inp)
+        src = inp['src']
+        isjson, rewrite = src == 'json', src == 'file-rewrite'
+        inp_c = dict(inp, post=post)
+        inp_c.pop('npost', None)
+        r2, t2, dm2, _p = self.setup(inp_c)          # an identical, independent original
+        t2 += len(r.pool)
+        r.pool.extend(r2.pool)
+        for q in r.pool:
+            r.fam(q)
+        used = sorted(set(r.fam(x) for x in r.pool))
+        problems, orig_problems = [], []
+        orig_lit = dump_x(r, dm, orig_problems)
+        orig2_lit = dump_x(r, dm2, [])
+        ctrl_ok = nofam(orig2_lit) == nofam(orig_lit) and not rewrite and not isjson
+        proto = inp.get('protocol', 2)
+        path = os.path.join(_filedir(), 'twice.pkl')
+        idchecks = ['m_id_start %s' % L.z(_M()._id)]
+        roots = []
+        state = {'pyfail': None, 'ok_ops': 0}
+
+        def fail(msg):
+            state['pyfail'] = state['pyfail'] or msg
+        try:
+            if src.startswith('file'):
+                io.writepickle(dm, path, protocol=proto)
+            elif src == 'load':
+                with open(path, 'wb') as f:
+                    pickle.dump(dm, f, proto)
+            elif src == 'loads':
+                data = pickle.dumps(dm, proto)
+            else:
+                text = cnv.to_json(dm)
+        except Exception as e:      # noqa: BLE001
+            return self._fail_case(inp, 'serialising raised %r' % (e,), ['twice', 'twice:' + src])
+
+        def read(k):
+            M = _M()
+            c0 = M._id
+            if src.startswith('file'):
+                x = io.readpickle(os.path.relpath(path) if (k and inp.get('relpath')) else path)
+            elif src == 'load':
+                with open(path, 'rb') as f:
+                    x = pickle.load(f)
+            elif src == 'loads':
+                x = pickle.loads(data)
+            else:
+                x = cnv.from_json(text)
+            if not isinstance(x, world.DataMatrix):
+                raise TypeError('read number %d returned a %s' % (k + 1, type(x).__name__))
+            if not isjson:
+                idchecks.append('m_ids_restore %s %s %s' % (L.z(c0), L.z(x._id), L.z(M._id)))
+            r.pool.append(x)
+            roots.append(r.fam(x))
+            return x, len(r.pool) - 1
+
+        def follow(pairs, key, n, seedoff, label, paired, lits, last):
+            """n follow-up operations (generated on the first run, replayed from inp[key] afterwards) on the tables of
+            `pairs` -- on both sides when paired; every changed pair is dumped into lits"""
+            ops_l = inp.get(key)
+            gen = ops_l is None
+            ops_l = [] if gen else ops_l
+            frng = random.Random(inp.get('fseed', 0) + seedoff)
+            k = 0
+            while (gen and k < n) or (not gen and k < len(ops_l)):
+                if gen:
+                    if frng.random() < 0.55:          # an in-place edit: cells, a new / re-typed / aliased column, rename, resize, rows
+                        o = histgen.gen_op(frng, _View(r, pairs), EDIT_WEIGHTS, bad_rate=0.04, max_pool=8, max_rows=9)
+                        if o['op'] == 'new':
+                            o = {'op': 'setlength', 't': 0, 'n': len(r.pool[pairs[0][0]]) + 1}
+                    else:
+                        o = gen_follow(frng, r, pairs, k == 0)
+                    ops_l.append(o)
+                o = ops_l[k]
+                k += 1
+                if not refs_ok(o, len(pairs)):
+                    continue
+                sd = inp['seed'] * 31 + k + seedoff
+                n0 = len(r.pool)
+                out_a, new_a = r.apply(subst(o, pairs, 0), seed=sd)
+                ia = len(r.pool) - 1
+                if paired:
+                    out_b, new_b = r.apply(subst(o, pairs, 1), seed=sd)
+                    ib = len(r.pool) - 1
+                    if out_a != out_b:
+                        fail('%s, %s: the original gives %s, the table that was read gives %s' % (label, o['op'], out_a, out_b))
+                    if new_a and new_b:
+                        pairs.append((ia, ib))
+                    elif new_a or new_b:
+                        del r.pool[n0:]
+                elif new_a:
+                    pairs.append((ia, ia))
+                if not out_a.startswith('(Err'):
+                    state['ok_ops'] += 1
+                if paired:
+                    dump_pairs(pairs, '%s, after %s' % (label, o['op']), lits, last)
+            return ops_l
+
+        def dump_pairs(pairs, label, lits, last):
+            for a, b in pairs:
+                pr, pa = [], []
+                la, lb = dump_x(r, r.pool[a], pa), dump_x(r, r.pool[b], pr)
+                if last.get((a, b)) != (la, lb):
+                    last[(a, b)] = (la, lb)
+                    lits.append('(%s, %s)' % (la, lb))
+                    r.probes(r.pool[b], pr)
+                    r.probes(r.pool[a], pa)
+                problems.extend('%s: %s' % (label, q) for q in pr if q not in pa)
+
+        # ---- first read, and what is done with its result before the file / bytes / text is read again
+        self._stage = 'first read'
+        try:
+            first, i1 = read(0)
+        except Exception as e:      # noqa: BLE001
+            return self._fail_case(inp, 'the first read raised %r' % (e,), ['twice', 'twice:' + src])
+        lit1 = dump_x(r, first, problems)
+        r.probes(first, problems)
+        r.probes(dm, orig_problems)
+        problems[:] = [q for q in problems if q not in orig_problems]
+        if dump_x(r, dm, []) != orig_lit:
+            fail('serialising changed the original object')
+        pairs_a = [(t, i1)] if not isjson else [(i1, i1)]
+        lits_a, last_a = [], {(t, i1): (orig_lit, lit1)}
+        before = follow(pairs_a, 'before_ops', inp.get('nbefore', 0), 0, 'before the second read', not isjson, lits_a, last_a)
+        snap1 = nofam(dump_x(r, first, []))
+        # ---- second read
+        self._stage = 'second read'
+        ctrl_lit, ctrl_problems = orig2_lit, []
+        if rewrite:
+            ctrl_lit = dump_x(r, dm, ctrl_problems)         # the table as edited by now goes to the same path
+            try:
+                io.writepickle(dm, path, protocol=proto)
+            except Exception as e:      # noqa: BLE001
+                return self._fail_case(inp, 'writing the edited table to the same path raised %r' % (e,), ['twice', 'twice:' + src])
+        if isjson:
+            ctrl_lit = orig_lit
+        try:
+            second, i2 = read(1)
+        except Exception as e:      # noqa: BLE001
+            return self._fail_case(inp, 'the second read raised %r' % (e,), ['twice', 'twice:' + src])
+        p2 = []
+        lit2 = dump_x(r, second, p2)
+        r.probes(second, p2)
+        problems.extend('second read: ' + q for q in p2 if q not in orig_problems and q not in ctrl_problems)
+        why = shared_state(first, second)
+        if why:
+            fail('the tables returned by the first and the second read %s' % why)
+        for x, what in ((first, 'first'), (second, 'second')):
+            if not_owned(x):
+                fail('after the second read the columns %r of the %s result do not belong to it' % (not_owned(x), what))
+        if nofam(dump_x(r, first, [])) != snap1:
+            fail('the second read changed the table returned by the first read')
+        if not isjson:
+            dump_pairs(pairs_a, 'after the second read', lits_a, last_a)
+        # ---- the second result is used (against its control), then the first one again
+        pairs_b = [(t2, i2)] if ctrl_ok else [(i2, i2)]
+        lits_b, last_b = [], {(t2, i2): (orig2_lit, lit2)}
+        second_ops = follow(pairs_b, 'second_ops', inp.get('nsecond', 0), 500, 'on the second result', ctrl_ok, lits_b, last_b)
+        if nofam(dump_x(r, first, [])) != snap1:
+            fail('what was done to the second result shows in the first result')
+        if not isjson:
+            dump_pairs(pairs_a, 'after the second result was used', lits_a, last_a)
+        snap2 = nofam(dump_x(r, second, []))
+        after = follow(pairs_a, 'after_ops', inp.get('nafter', 0), 900, 'after the second read', not isjson, lits_a, last_a)
+        if nofam(dump_x(r, second, [])) != snap2:
+            fail('what was done to the first result after the second read shows in the second result')
+        # ---- a third read
+        lit3 = None
+        if inp.get('third'):
+            self._stage = 'third read'
+            try:
+                third, _i3 = read(2)
+            except Exception as e:      # noqa: BLE001
+                return self._fail_case(inp, 'the third read raised %r' % (e,), ['twice', 'twice:' + src])
+            p3 = []
+            lit3 = dump_x(r, third, p3)
+            r.probes(third, p3)
+            problems.extend('third read: ' + q for q in p3 if q not in orig_problems and q not in ctrl_problems)
+            for x, what in ((first, 'first'), (second, 'second')):
+                why = shared_state(x, third)
+                if why:
+                    fail('the tables returned by the %s and the third read %s' % (what, why))
+            for x, what in ((first, 'first'), (second, 'second'), (third, 'third')):
+                if not_owned(x):
+                    fail('after the third read the columns %r of the %s result do not belong to it' % (not_owned(x), what))
+        if problems:
+            fail('python-side probes: ' + '; '.join(problems[:3]))
+        fam = lambda i: L.nat(r.fam(r.pool[i]))          # noqa: E731
+        fams_of = lambda prs: L.lst('(%s, %s)' % (fam(a), fam(b)) for a, b in prs)          # noqa: E731
+        if isjson:
+            oracle = '(xjson_case %s %s %s && xjson_case %s %s %s && %sfresh_roots %s %s)' % (
+                nats(used), orig_lit, lit1, nats(used), orig_lit, lit2,
+                'xjson_case %s %s %s && ' % (nats(used), orig_lit, lit3) if lit3 else '', nats(used), nats(roots))
+            model = '(m_xfrom_json %s %s && m_xfrom_json %s %s%s)' % (
+                orig_lit, lit1, orig_lit, lit2, ' && m_xfrom_json %s %s' % (orig_lit, lit3) if lit3 else '')
+        else:
+            fl_a, fl_b = L.lst(lits_a), L.lst(lits_b)
+            oracle = ('(xpickle_case %s %s %s %s && fams_case %s %s (%s, %s) (%s ++ xfams %s) && xpickle_case %s %s %s %s%s%s)' % (
+                nats(used), orig_lit, lit1, fl_a, nats(used), nats(roots), fam(t), fam(i1), fams_of(pairs_a[1:]), fl_a,
+                nats(used), ctrl_lit, lit2, fl_b,
+                ' && fams_case %s [] (%s, %s) (%s ++ xfams %s)' % (nats(used), fam(t2), fam(i2), fams_of(pairs_b[1:]), fl_b)
+                if ctrl_ok else '',
+                ' && xpickle_case %s %s %s []' % (nats(used), ctrl_lit, lit3) if lit3 else ''))
+            model = '(m_xpickle %s %s && m_xpickle %s %s%s && %s)' % (
+                orig_lit, lit1, ctrl_lit, lit2, ' && m_xpickle %s %s' % (ctrl_lit, lit3) if lit3 else '', ' && '.join(idchecks))
+        if orig_problems or ctrl_problems:          # the dump of a malformed original is lossy: outside the L1 model
+            model = '(%s)' % ' && '.join(idchecks)
+        inp2 = dict(inp, post=post, before_ops=before, second_ops=second_ops, after_ops=after)
+        for k in ('npost', 'nbefore', 'nsecond', 'nafter'):
+            inp2.pop(k, None)
+        return {
+            'input': inp2,
+            'observed': {'rows': len(dm2), 'columns': list(dm2._cols.keys()), 'reads': 3 if lit3 else 2,
+                         'control': 'rebuilt' if ctrl_ok else 'snapshot', 'problems': problems[:4],
+                         'original_malformed': orig_problems[:2]},
+            'pyfail': state['pyfail'], 'oracle': oracle, 'model': model,
+            'nontrivial': len(dm2) > 0 and len(dm2._cols) > 0 and state['ok_ops'] > 0,
+            'sig': json.dumps(inp2, sort_keys=True, default=str),
+            'tags': ['twice', 'twice:' + src, 'twice:reads%d' % (3 if lit3 else 2), 'twice:control-' + ('rebuilt' if ctrl_ok else 'snapshot'),
+                     'rows%d' % min(len(dm2), 9)] + self._tags(dm2, inp)
+                    + ['twice-before-' + o['op'] for o in before] + ['twice-after-' + o['op'] for o in after]
+                    + ['twice-second-' + o['op'] for o in second_ops] + (['orig-malformed'] if orig_problems else []),
         }
 
     def _tags(self, dm, inp):
@@ -1195,6 +1487,8 @@ class C17:
                     return self.run_reser(inp)
                 if kind == 'fresh':
                     return self.run_fresh(inp)
+                if kind == 'twice':
+                    return self.run_twice(inp)
                 return self.run_pandas(inp)
             except Exception as e:      # noqa: BLE001
                 if self._stage == 'setup':
@@ -1349,6 +1643,15 @@ if __name__ == '__main__':
                                              **ser(big_ok=sub.random() < 0.3))))
             if h % 12 == 0 and npool:
                 cases.append(self.rerun(dict(base, kind='fresh', t=order[0], protocol=sub.choice([0, 2, 4]))))
+            # the same file / bytes / JSON text read twice, the first result modified before and after the second read
+            for t in order[:1]:
+                srck = TWICE_SRC[h % len(TWICE_SRC)]
+                cases.append(self.rerun(dict(base, kind='twice', t=t, src=srck, protocol=sub.choice([0, 2, 4, 5]),
+                                             relpath=sub.random() < 0.3, warm=sub.randint(0, 2), deco=deco(),
+                                             fseed=sub.randrange(1 << 30), nbefore=sub.choice([0, 1, 2, 2, 3]),
+                                             nsecond=sub.choice([0, 1, 2]), nafter=sub.choice([0, 1, 2]),
+                                             third=sub.random() < 0.35, foreign=sub.random() < 0.1,
+                                             **ser(big_ok=sub.random() < 0.2))))
             for t in order[:2]:
                 extra = ser()
                 # the perturbation is chosen on the table as it is before the post-operations; a stale row index
@@ -1386,6 +1689,14 @@ if __name__ == '__main__':
             l = inp.get(key) or []
             for i in range(len(l) - 1, -1, -1):
                 yield dict(inp, **{key: l[:i] + l[i + 1:]})
+        for key in ('after_ops', 'second_ops', 'before_ops'):
+            f = inp.get(key) or []
+            for i in range(len(f) - 1, -1, -1):
+                yield dict(inp, **{key: f[:i] + f[i + 1:]})
+        if inp.get('third'):
+            yield dict(inp, third=False)
+        if inp.get('relpath'):
+            yield dict(inp, relpath=False)
         if inp.get('edits'):
             f = inp['edits']
             for i in range(len(f) - 1, -1, -1):
@@ -1438,6 +1749,10 @@ if __name__ == '__main__':
                                                        ' '.join(o['op'] for o in inp.get('follow') or []))
         if k == 'json':
             return 'json%s perturb %s' % (s, (inp.get('perturb') or {}).get('k'))
+        if k == 'twice':
+            return 'read twice%s %s (%s reads) before %s second %s after %s' % (
+                s, inp.get('src'), 3 if inp.get('third') else 2, ' '.join(o['op'] for o in inp.get('before_ops') or []),
+                ' '.join(o['op'] for o in inp.get('second_ops') or []), ' '.join(o['op'] for o in inp.get('after_ops') or []))
         if k == 'reser':
             return 'reser%s %s edits %s' % (s, inp.get('what'), ' '.join(edit_name(e) for e in inp.get('edits') or []))
         return k + s
